@@ -66,3 +66,92 @@ def main():
 
 if __name__ == '__main__':
     main()
+
+
+SCEN_DESC = {
+    'spawn': 'spawn/join storms: return, panic, cancel endings, detached handles, migration; join() value/panic/Cancel truthfulness, exactly-once run',
+    'spawnp': 'the same with coroutines pinned to workers (Builder::id)',
+    'joinrace': 'no-hook stress: 30 000 spawn+join (wait+is_done) rounds per execution',
+    'park': 'rounds of park / park_timeout (whole and fractional ms) on a fresh Blocker or the coroutine handle, 1-3 unparkers; Ok only after an unpark, Timeout never early, never Canceled',
+    'parkrace': 'no-hook stress: park/unpark turn passing between a coroutine and a spinning thread',
+    'mutex': 'n lockers (threads + coroutines), occupancy + payload + lost-update checks, try_lock',
+    'mutexc': 'the same with a cancelled waiter (cancel at any point of lock())',
+    'hsmutex': 'no-hook stress: release/unparked handshake of Mutex under timed-out / cancelled waiters',
+    'lockrace': 'no-hook stress: 2-4 parties (half of the instances 3-4 plain threads) x 10^5 lock sections',
+    'chan': 'mpsc / spsc / mpmc: every message exactly once, per-sender order, drop counts, blocking / timed / polling receivers',
+    'chanrace': 'no-hook stress: ping-pong over each channel kind',
+    'dis': 'last Sender dropped at any point of a receiver\'s recv (gated stalls): Disconnected after the queued values, every receiver released',
+    'disrx': 'Receiver dropped while senders send: send fails, queued values dropped once',
+    'disrace': 'no-hook stress: 10^4 drop-vs-recv rounds',
+    'tmr': 'timed waits of ten primitives over 13 durations (0, 1 ns ... 10.5 ms): never early, must return; promptness as Suspect',
+    'tmrmix': 'many timers at once, > 1024 distinct intervals, heads removed, short timer armed behind long ones',
+    'tmrrace': 'no-hook stress: timer thread wake-up vs new earliest timer',
+    'can': 'cancel enumeration: target blocked in each of 16 blocking calls, cancel at every hook window (fire plans); cleanup, drop counts, permits, join() = Cancel',
+    'semc': 'cancelled semaphore waiter beside others: permit conservation',
+    'cvc': 'condvar tokens with a cancelled waiter (incl. give-up accounting)',
+    'rwc': 'RwLock with a cancelled writer waiter',
+    'rwcr': 'RwLock with a cancelled *reader* (beside other readers), then exclusion re-checked with fresh readers and writers',
+    'relock': 'notified condvar waiters re-locking the mutex while cancelled around the holder\'s unlock',
+    'iocan': 'cancel of coroutines blocked in socket read/accept/connect',
+    'hssem': 'no-hook stress: semaphore hand-over handshake',
+    'sem': 'waiters (wait / wait_timeout / try_wait) vs a poster: prefix condition successes <= init + posts at every point, final value',
+    'semlock': 'semaphore(1|2) used as a lock by 3-4 parties: occupancy never above init',
+    'semrace': 'no-hook stress: semaphore ping-pong',
+    'flag': 'SyncFlag: fire vs wait / wait_timeout, one-way latch',
+    'cv': 'token passing through Mutex+Condvar, timed and untimed consumers; give-up mode: impatient consumers leave, tokens == patient consumers, a token left beside a sleeping patient consumer = lost notification',
+    'cvrace': 'no-hook stress: condvar ping-pong',
+    'bar': 'Barrier generations and WaitGroup: release exactly when due, one leader',
+    'rwseq': 'sequential random RwLock operation sequences against a reference model (poison, try_*)',
+    'rw': 'readers / writers with occupancy monitors, poisoned and try_* variants',
+    'pan': 'panic storm after detached panickers on pooled stacks: payload delivery, poisoning, bystanders never see thread::panicking(), workers stay healthy',
+    'scope': 'scoped children x owner panic / owner cancel / child panic; scope never left while a child runs (exit guard), results once',
+    'selc': 'select! with join! nested in an arm, owner cancelled: borrowed frame never used after exit',
+    'cls': 'coroutine-local storage: predecessors (residue x ending) on pooled stacks, successors must start clean (first blocking call variants)',
+    'sel': 'select! over ready/late arms: token of a fully run arm, no arm running afterwards',
+    'cq': 'cqueue poll loops: repeated events, time-outs, removed selectors, panicking arm (incl. forever mode with a silent live arm), early exit',
+    'cqrace': 'no-hook stress: poll vs send',
+    'io': 'one-way stream transfer (unix / tcp), random chunking, small send buffers, timed reads: content, order, length, EOF, kernel-view readiness oracle',
+    'tcp': 'accept/connect/echo with several clients, 1-16 workers',
+    'dgram': 'UDP and unix datagrams: boundaries, peers',
+    'iochurn': 'sessions that open, use and close sockets concurrently: descriptor numbers reused across threads',
+    'unixsrv': 'shapes of may\'s own os::unix::net tests (accept in a coroutine, connect + try_clone + reads from a thread)',
+    'iorace': 'no-hook stress: echo ping-pong',
+    'iot': 'timed socket operations: data before / at / after the deadline, sequences on one socket; never early, later operations undisturbed',
+}
+
+
+def catalogue():
+    import sys
+    sys.path.insert(0, ROOT)
+    import plans
+    rows = ['| property | scenario families (lane/kind) |', '|---|---|']
+    used = set()
+    for p, pl in sorted(plans.PLANS.items()):
+        if pl.get('engine') == 'q':
+            continue
+        items = []
+        for j in pl['jobs']:
+            tag = j['scen'] + ('(dir)' if j.get('only_prefix') else '') + ('(stress)' if j.get('no_hook') else '') + (f":{j['lane']}" if j.get('lane', 'plain') != 'plain' else '')
+            if tag not in items:
+                items.append(tag)
+            used.add(j['scen'])
+        rows.append(f"| {p} | {', '.join(items)} |")
+    rows.append('')
+    rows.append('| scenario | what it drives and judges |')
+    rows.append('|---|---|')
+    for sc in sorted(used):
+        rows.append(f"| `{sc}` | {SCEN_DESC.get(sc, '')} |")
+    return '\n'.join(rows)
+
+
+def main2():
+    p = f'{ROOT}/DESIGN.md'
+    s = open(p).read()
+    b, e = '<!-- CATALOGUE-BEGIN -->', '<!-- CATALOGUE-END -->'
+    if b in s and e in s:
+        s = s[:s.index(b) + len(b)] + '\n' + catalogue() + '\n' + s[s.index(e):]
+        open(p, 'w').write(s)
+
+
+if __name__ == '__main__':
+    main2()
